@@ -9,15 +9,29 @@ def gen_rows(r, n, disjoint=True, t0=0, long_rows=False, vmax=50):
     rows = []
     t = t0 + r.choice([0, 0, 1, 3, 1200])
     prev_end = t
-    for _ in range(n):
+    while len(rows) < n:
         length = r.choice([1, 1, 2, 3, 6] + ([900, 2500] if long_rows else []))
         if disjoint or not rows:
             start = prev_end + r.choice(GAPS)
         else:
             # may start inside the previous row (overlapping), never before its start
             start = r.randint(rows[-1][0], prev_end + r.choice(GAPS))
+        if not disjoint and r.random() < 0.25 and n - len(rows) >= 3:
+            # nest: a long row, a short row inside it that ends early, then rows starting inside the
+            # long row after the nested one ended (end times are NOT sorted)
+            L = r.choice([20, 60, 2000, 6000])
+            rows.append([start, start + L, r.randint(0, vmax)])
+            t0 = start + r.randint(0, 3)
+            for _ in range(r.randint(1, min(3, n - len(rows)))):
+                ln = r.choice([1, 2, 5])
+                rows.append([t0, t0 + ln, r.randint(0, vmax)])
+                t0 = t0 + ln + r.choice([0, 1, 4, L // 3])
+            prev_end = max(prev_end, start + L, max(x[1] for x in rows))
+            rows.sort(key=lambda x: x[0])
+            continue
         rows.append([start, start + length, r.randint(0, vmax)])
         prev_end = max(prev_end, start + length)
+    rows.sort(key=lambda x: x[0])
     return rows
 
 
@@ -65,7 +79,8 @@ def run_span(all_rows, r):
     return start, end
 
 
-KINDS_ALL = ("rowmap", "filter", "merge2", "multi", "loop", "overlap", "downchunk", "exhaust")
+KINDS_ALL = ("rowmap", "filter", "merge2", "multi", "loop", "overlap", "overlapm", "downchunk", "exhaust",
+             "recorder")
 LAGGING = ("overlap", "overlapm", "downchunk", "exhaust")
 
 
@@ -165,6 +180,12 @@ def gen_graph(r, n_derived=(1, 5), n_sources=(1, 2), kinds=KINDS_ALL, n_rows=(0,
             d = r.choice(usable)
             node = {"name": name, "kind": "downchunk", "dep": d, "k": r.randint(1, 4)}
             kind_of[name], disjoint[name] = kind_of[d], disjoint[d]
+        elif kind == "recorder":
+            if len(usable) < 2:
+                continue
+            deps = r.sample(usable, r.randint(2, min(3, len(usable))))
+            node = {"name": name, "kind": "recorder", "deps": deps}
+            kind_of[name], disjoint[name] = kind_of[deps[0]], disjoint[deps[0]]
         elif kind == "exhaust":
             d = r.choice(usable)
             node = {"name": name, "kind": "exhaust", "dep": d}
